@@ -12,7 +12,10 @@ Oracle (independent, implementation only): all routes pairwise equal (rich canon
 weights, annotations, taxon identity classes), Tree.get(c, k) = blocks[c][k] with Python index
 semantics, TreeList.get(collection_offset, tree_offset) = blocks[c][k:], concatenation of
 DataSet.get's lists = TreeList.get, TreeArray.read = an array filled from TreeList.get,
-CharacterMatrix.get = the matrix inside DataSet.get, data= / file= / path= identical.
+CharacterMatrix.get = the matrix inside DataSet.get, data= / file= / path= identical (the temp file holds exactly
+the document's characters; a fifth of the documents carries carriage returns inside quoted tokens, inside comments
+or as line terminators; the path= deviation is the finding source-dispatch:path-universal-newlines only when the
+universal-newline translation of the document explains it exactly).
 """
 import io
 import json
@@ -69,6 +72,101 @@ def raw_hyphen_ok(s):
 TREE_COMMENTS = ["[&R] ", "[&U] ", "[&r]", "[&u] ", "", "", "", "[&W 0.5] ", "[&W 1/4] ", "[note] ",
                  "[&foo=1,bar=\"x\"] ", "[&R][&W 0.25] ", "[&U] [c1][c2] ", "[ &R ] ", "[&!color=#ff0000] "]
 NODE_COMMENTS = ["", "", "", "", "[nc]", "[&x=2]", "[&&NHX:S=h]"]
+
+
+# ---- carriage returns ------------------------------------------------------------------------
+# A fraction of the Newick / NEXUS documents carries '\r\n' or a lone '\r' (a) inside a quoted token, (b) inside a
+# comment, (c) as line terminator (whitespace: must make no difference on any route).  The temp file is written
+# with newline='' (bytes on disk = document); the path= routes open it in text mode with universal newlines.
+
+TOK_WS = " \t\n\r"
+TOK_CAPTURED = "{}(),;:=\\\""
+
+
+def scan_regions(doc):
+    """quoted tokens and comments of a text as the NexusTokenizer (default delimiter sets) sees them:
+    [(kind, start, end)], kind "q" / "c", doc[start:end] the text between the quotes / brackets"""
+    out = []
+    n = len(doc)
+
+    def comment(i):         # doc[i] == "["; returns the index after the comment
+        depth = 1
+        j = i + 1
+        while j < n and depth:
+            if doc[j] == "[":
+                depth += 1
+            elif doc[j] == "]":
+                depth -= 1
+            j += 1
+        out.append(("c", i + 1, j - 1 if depth == 0 else n))
+        return j
+    i = 0
+    while i < n:
+        ch = doc[i]
+        if ch in TOK_WS or ch in TOK_CAPTURED:
+            i += 1
+        elif ch == "'":
+            j = i + 1
+            while j < n:
+                if doc[j] == "'":
+                    if j + 1 < n and doc[j + 1] == "'":
+                        j += 2
+                        continue
+                    break
+                j += 1
+            out.append(("q", i + 1, min(j, n)))
+            i = j + 1
+        else:
+            while i < n and doc[i] not in TOK_WS and doc[i] not in TOK_CAPTURED:
+                i = comment(i) if doc[i] == "[" else i + 1
+    return out
+
+
+def cr_inside(doc):
+    """does the text have a carriage return inside a quoted token or a comment?"""
+    return "\r" in doc and any("\r" in doc[a:b] for _, a, b in scan_regions(doc))
+
+
+def universal_newlines(doc):
+    """what a text-mode stream with newline=None delivers for these characters"""
+    return doc.replace("\r\n", "\n").replace("\r", "\n")
+
+
+def add_carriage_returns(rng, doc, feats):
+    """put carriage returns into a generated document (modes may combine); records what was done in feats"""
+    mode = rng.choice(["eol", "eol", "quoted", "quoted", "comment", "comment", "eol+quoted", "eol+comment", "quoted+comment",
+                       "eol+quoted+comment"])
+    if "quoted" in mode:
+        contents = sorted({doc[a:b] for kind, a, b in scan_regions(doc) if kind == "q" and b - a >= 2})
+        rng.shuffle(contents)
+        for content in contents[:rng.choice([1, 1, 2])]:
+            # every occurrence of the quoted token gets the same new text (TAXLABELS, TRANSLATE, tree statements)
+            cuts = [p for p in range(1, len(content)) if content[p - 1] != "'" and content[p] != "'"]
+            if not cuts:
+                continue
+            p = rng.choice(cuts)
+            new = content[:p] + rng.choice(["\r\n", "\r\n", "\r", "\r \r\n"]) + content[p:]
+            doc = doc.replace("'" + content + "'", "'" + new + "'")
+            feats["cr_quoted"] = True
+    if "comment" in mode:
+        regions = [(a, b) for kind, a, b in scan_regions(doc) if kind == "c"]
+        picked = sorted(rng.sample(regions, min(len(regions), rng.choice([1, 2, 3]))), reverse=True)
+        for a, b in picked:
+            p = rng.randint(a, b)
+            doc = doc[:p] + rng.choice(["\r\n", "\r\n", "\r"]) + doc[p:]
+            feats["cr_comment"] = True
+    if "eol" in mode:
+        style = rng.choice(["crlf", "crlf", "cr", "mixed"])
+        inside = [(a, b) for _, a, b in scan_regions(doc)]
+        out = []
+        for i, ch in enumerate(doc):
+            if ch == "\n" and (i == 0 or doc[i - 1] != "\r") and not any(a <= i < b for a, b in inside):
+                out.append({"crlf": "\r\n", "cr": "\r"}.get(style) or rng.choice(["\n", "\r\n", "\r", "\r\r\n"]))
+                feats["cr_eol"] = True
+            else:
+                out.append(ch)
+        doc = "".join(out)
+    return doc
 
 
 def spec_newick(rng, t, labels, token_of=None, with_len=True, node_comments=False, internal_labels=False,
@@ -366,6 +464,8 @@ def gen_case(rng, schema=None):
         doc, feats = gen_nexus_doc(rng)
     else:
         doc, feats = gen_nexml_doc(rng)
+    if schema != "nexml" and rng.random() < 0.2:
+        doc = add_carriage_returns(rng, doc, feats)
     kw2 = {}
     if schema != "nexml":
         if rng.random() < 0.6:
@@ -652,13 +752,21 @@ def offsets_for(nblocks, sizes, rng):
 def observe(case):
     os.makedirs(TMPDIR, exist_ok=True)
     fd, path = tempfile.mkstemp(suffix=".txt", dir=TMPDIR)
-    with os.fdopen(fd, "w") as f:
+    with os.fdopen(fd, "w", newline="") as f:       # no newline translation: the bytes on disk are the document
         f.write(case["doc"])
     try:
         rng = random.Random(hash(case["doc"]) & 0xffffff)
         obs = {"tokens": None, "runs": []}
         if case["schema"] != "nexml":
             obs["tokens"] = tokenize(case["doc"])
+        # documents with a carriage return inside a quoted token / comment: the routes compared with the model read
+        # the string or a StringIO; every path= route is observed beside its data= twin and beside the data= route
+        # on the universal-newline translation of the document (oracle clause source-dispatch)
+        inside = cr_inside(case["doc"])
+        hows = ["data", "file"] if inside else ["data", "file", "path"]
+        if "\r" in case["doc"]:
+            with open(path) as f:
+                obs["text_mode_reads_translation"] = f.read() == universal_newlines(case["doc"])
         kws = [dict(MODEL_KW)] if case["schema"] != "nexml" else [{}]
         if case["kw2"]:
             kws.append(case["kw2"])
@@ -677,9 +785,9 @@ def observe(case):
             if case["schema"] == "newick" and "sk" in run["list"]:
                 sizes = [len(run["list"]["sk"])]
             offs = offsets_for(len(sizes), sizes, rng)
-            run["tree"] = [[c, k, R.tree(c, k, how=rng.choice(["data", "file", "path"]))] for c, k in offs]
-            run["list_off"] = [[c, k, R.treelist(rng.choice(["data", "file", "path"]), c, k)] for c, k in offs if (c, k) != (None, None)]
-            run["read"] = R.read(case["ns0"], how=rng.choice(["data", "file", "path"]))
+            run["tree"] = [[c, k, R.tree(c, k, how=rng.choice(hows))] for c, k in offs]
+            run["list_off"] = [[c, k, R.treelist(rng.choice(hows), c, k)] for c, k in offs if (c, k) != (None, None)]
+            run["read"] = R.read(case["ns0"], how=rng.choice(hows))
             run["read_twice"] = R.read(case["ns0"], twice=True)
             run["yield"] = R.yielder(case["ns0"])
             run["yield_file"] = R.yielder(case["ns0"], how="file")
@@ -690,6 +798,25 @@ def observe(case):
             if case["feats"].get("chars"):
                 run["matrix"] = R.matrix()
                 run["matrix_path"] = R.matrix("path")
+            # [route, data= (or file=) result, path= result, data= result on the translated document or None]
+            src = [["TreeList.get(file=)", run["list"], run["list_file"], None],
+                   ["TreeList.get", run["list"], run["list_path"], None],
+                   ["Tree.yield_from_files", run["yield_file"], run["yield"], None],
+                   ["TreeArray.read", run["array"], run["array_path"], None]]
+            if "matrix" in run:
+                src.append(["CharacterMatrix.get", run["matrix"], run["matrix_path"], None])
+            if inside:
+                RT = Runner(dict(case, doc=universal_newlines(case["doc"])), kw, None)
+                src[1][3] = RT.treelist()
+                src[2][3] = RT.yielder(case["ns0"], how="file")
+                src[3][3] = RT.array(case["array_offset"])
+                if "matrix" in run:
+                    src[4][3] = RT.matrix()
+                for c, k in offs[:3]:
+                    src.append(["Tree.get(collection_offset=%s, tree_offset=%s)" % (c, k), R.tree(c, k), R.tree(c, k, how="path"), RT.tree(c, k)])
+                src.append(["TreeList.read", R.read(case["ns0"]), R.read(case["ns0"], how="path"), RT.read(case["ns0"])])
+                src.append(["DataSet.get", run["dataset"], R.dataset(False, how="path"), RT.dataset(False)])
+            run["src"] = src
 
             obs["runs"].append(run)
         return obs
@@ -728,6 +855,36 @@ def is_err(x):
     return isinstance(x, dict) and "err" in x
 
 
+PATH_NEWLINES_KEY = "source-dispatch:path-universal-newlines"
+
+
+def strip_msgs(x):
+    """an observation without the exception texts (they may name the source)"""
+    if isinstance(x, dict):
+        return {k: strip_msgs(v) for k, v in x.items() if k != "msg"}
+    if isinstance(x, (list, tuple)):
+        return [strip_msgs(v) for v in x]
+    return x
+
+
+def same_result(a, b):
+    return strip_msgs(a) == strip_msgs(b)
+
+
+def first_diff(a, b, where=""):
+    """(a's, b's) first differing part of two observations, for messages"""
+    a, b = strip_msgs(a), strip_msgs(b)
+    if isinstance(a, dict) and isinstance(b, dict) and set(a) == set(b):
+        for k in a:
+            if a[k] != b[k]:
+                return first_diff(a[k], b[k], "%s.%s" % (where, k))
+    if isinstance(a, list) and isinstance(b, list) and len(a) == len(b):
+        for i, (x, y) in enumerate(zip(a, b)):
+            if x != y:
+                return first_diff(x, y, "%s[%d]" % (where, i))
+    return "%s %r" % (where, a), "%s %r" % (where, b)
+
+
 UNATTACHED_ERRORS = ("TooManyTaxaError", "UndefinedBlockError", "MultipleBlockWithSameTitleError", "LinkRequiredError")
 INVALID_FEATURES = ("ntax_short", "bad_header", "ends_after_eq", "no_end", "late_statement",
                     "missing_semicolon", "missing_link", "translate_trailing_comma", "chars_without_ntax", "fixed")
@@ -750,6 +907,9 @@ def oracle(case, obs):
 def oracle_all(case, obs):
     out = []
     seen = set()
+    if obs.get("text_mode_reads_translation") is False:
+        out.append(("harness: reading the temp file in text mode does not give the universal-newline translation of the document %r"
+                     % case["doc"][:200], "harness:text-mode-translation"))
     for run in obs["runs"]:
         for what, key in oracle_run(case, run):
             if key not in seen:
@@ -843,10 +1003,28 @@ def oracle_run(case, run):
             viol("%s and %s attach different taxa: %s in %s vs %s in %s" % (route, ref_name, got["taxa"], got["ns"], want["taxa"], want["ns"]),
                  "%s:taxa" % route.split("(")[0])
 
-    # whole-list routes, and string = stream = path
+    # string = stream = path.  A difference between the path= and the data= result is the listed finding
+    # PATH_NEWLINES_KEY only if the document has a carriage return inside a quoted token or a comment AND the path=
+    # result is what data= gives for the universal-newline translation of the document; anything else is reported
+    # under the route's own key
+    explained = set()
+    doc_cr_inside = cr_inside(case["doc"])
+    for name, d, p, t in run.get("src", []):
+        if same_result(d, p):
+            continue
+        if doc_cr_inside and t is not None and same_result(p, t):
+            viol("%s: path= delivers %s where data= / file= deliver %s: the path is opened in text mode with universal newlines, "
+                 "which rewrites carriage returns inside quoted tokens and comments" % (name, first_diff(d, p)[1], first_diff(d, p)[0]),
+                 PATH_NEWLINES_KEY)
+            explained.add(name)
+        else:
+            viol("%s: %s and data= differ: %s vs %s" % (name, "file=" if "file=" in name else "path=", first_diff(d, p)[1], first_diff(d, p)[0]),
+                 "source-dispatch:" + name.split("(")[0])
+    # whole-list routes
     cmp_flat("TreeList.get", run["list"], flat, True)
     cmp_flat("TreeList.get(file=)", run["list_file"], flat, True)
-    cmp_flat("TreeList.get(path=)", run["list_path"], flat, True)
+    if "TreeList.get" not in explained:
+        cmp_flat("TreeList.get(path=)", run["list_path"], flat, True)
     same_ns = not case["ns0"]
     Rd = run["read"]
     cmp_flat("TreeList.read", Rd, flat, same_ns)
@@ -854,6 +1032,8 @@ def oracle_run(case, run):
         viol("TreeList.read returned %d for %d trees added" % (Rd["returned"], len(Rd["rich"])), "read-count")
     # the one-at-a-time iterator (namespace pre-populated with ns0, like TreeList.read)
     for name in ("yield", "yield_file"):
+        if name == "yield" and "Tree.yield_from_files" in explained:
+            continue
         Y = run[name]
         route = "Tree.yield_from_files" + ("(file object)" if name == "yield_file" else "")
         if Y["end"] is None:
@@ -979,6 +1159,8 @@ def oracle_run(case, run):
     if "matrix" in run:
         D0 = run["dataset"]
         for name in ("matrix", "matrix_path"):
+            if name == "matrix_path" and "CharacterMatrix.get" in explained:
+                continue
             M = run[name]
             what = "CharacterMatrix.get" + ("(taxon_namespace=<namespace holding %s>)" % case["ns0"] if name == "matrix_ns0" else "")
             if is_err(D0) != is_err(M):
@@ -997,9 +1179,7 @@ def oracle_array(case, run, viol, flat, valid):
     """TreeArray.read = an array filled tree by tree from the reference trees (re-read through the attached
     DataSet route so that the Tree objects are available)"""
     import dendropy
-    A = run["array"]
-    if run["array_path"] != A and not (is_err(A) and is_err(run["array_path"]) and A["err"] == run["array_path"]["err"]):
-        viol("TreeArray.read data= vs path= differ", "source-dispatch:array")
+    A = run["array"]         # data= vs path=: clause source-dispatch of oracle_run
     kw = dict(run["kw"])
     k = case["array_offset"]
     try:
@@ -1178,7 +1358,7 @@ def to_coq_body(case, obs):
     routes.append(("(RRead %s)" % cstrs(case["ns0"]), "(OList %s)" % (c_err(Rd) if is_err(Rd) else "(Ok (%s, %s))" % (c_sks(Rd["sk"]), cstrs(Rd["ns"])))))
     R2 = run["read_twice"]
     routes.append(("(RReadTwice %s)" % cstrs(case["ns0"]), "(OList %s)" % (c_err(R2) if is_err(R2) else "(Ok (%s, %s))" % (c_sks(R2["sk"]), cstrs(R2["ns"])))))
-    Y = run["yield"]
+    Y = run["yield_file"] if cr_inside(case["doc"]) else run["yield"]      # path= rewrites such a document, see oracle
     routes.append(("(RYield %s)" % cstrs(case["ns0"]), "(OYield %s %s)" % (c_sks(Y["sk"]), c_err(Y["end"]) if Y["end"] else "(Ok %s)" % cstrs(Y["ns"]))))
     for attached, name in ((False, "dataset"), (True, "dataset_attached")):
         D = run[name]
@@ -1217,9 +1397,11 @@ def count_case(ctx, case, obs):
         if k in f:
             ctx.count("%s:%d" % (k, f[k]))
     for k in ("translate", "numeric_refs", "sets_keywords", "chars_linked", "link", "link_other_target", "unknown_block", "chars", "sets", "late_statement", "no_end", "ends_after_eq",
-              "bad_header", "ntax_short", "no_dimensions"):
+              "bad_header", "ntax_short", "no_dimensions", "cr_eol", "cr_quoted", "cr_comment"):
         if f.get(k):
             ctx.count("feature:" + k)
+    if "\r" in case["doc"]:
+        ctx.count("carriage returns:%s" % ("inside a quoted token or comment" if cr_inside(case["doc"]) else "as whitespace only"))
     run = obs["runs"][0]
     ctx.count("list outcome:%s" % (run["list"]["err"] if is_err(run["list"]) else "ok"))
     ctx.count("yield outcome:%s" % (run["yield"]["end"]["err"] if run["yield"]["end"] else "ok"))
@@ -1252,6 +1434,15 @@ FIXED_DOCS = [
     ("newick", ""),
     ("newick", "(a,b)"),
     ("newick", "[&R](a:1.0,b:2.0):0.5;\n[&U] (a,(b,c));;\n"),
+    # carriage returns: inside a quoted label (finding PATH_NEWLINES_KEY: path= delivers 'a\nb'), inside comments,
+    # as line terminators only (no route may see a difference)
+    ("newick", "('a\r\nb',c,d);\n"),
+    ("newick", "[&R] (a[x\r\ny],c,d)[top\rcomment];\r\n"),
+    ("newick", "(a,b);\r\n(c,d);\r(a,(b,c));\r\n"),
+    ("nexus", "#NEXUS\r\nBEGIN TAXA;\r\n  DIMENSIONS NTAX=2;\r\n  TAXLABELS 'a\rb' c;\r\nEND;\r\n"
+              "BEGIN TREES;\r\n  TREE 'my\r\ntree' = [&R] ('a\rb',c);\r\nEND;\r\n"),
+    ("nexus", "#NEXUS\rBEGIN TAXA;\r  DIMENSIONS NTAX=3;\r  TAXLABELS a b c;\rEND;\r"
+              "BEGIN TREES;\r  TRANSLATE 1 a,\r 2 b,\r 3 c;\r  TREE t1 = [&R] (1,\r    (2,3));\r\nEND;\r"),
 ]
 
 
@@ -1343,7 +1534,7 @@ def run(tier, seed, replay=None):
     ctx.assumptions = [
         "model coq/Model/C13Model.v is a hand transcription of the route drivers; tied by this correspondence run",
         "the Newick statement parser is an arbitrary function in the theorems; the correspondence run instantiates it with a skeleton parser (statement boundaries, comments, rooting tokens, taxon symbol resolution)",
-        "string / stream / path dispatch, NeXML routes, character matrices: implementation-side oracle only",
+        "string / stream / path dispatch (beyond the characters handed to the tokenizer, Model/C13Newlines.v: path= = universal-newline translation, a hand transcription checked against a text-mode read of the temp file), NeXML routes, character matrices: implementation-side oracle only",
         "translator tie (Gen/Routes.v, Props/C13Gen.v): trusted are the compiler py/dv/gen_routes.py and the stated Python meaning of the interface operations in coq/Model/C13GenPrims.v (tokenizer methods, _get_taxon_namespace, _get_taxon_symbol_mapper, _parse_translate_statement, _parse_taxa_block, _new_tree_list, _build_tree_from_newick_tree_string, comment processing, reader.read_tree_lists glue in Proofs/C13GenEntry.v route_reader); these are tied to the source by the correspondence run only",
     ]
     if replay:
@@ -1407,6 +1598,7 @@ def run(tier, seed, replay=None):
                       rule="documents assembled from tree statements written by the library's NewickWriter / by a spec printer using the library's token escaping, "
                            "with hand-varied structure: Newick 0-6 statements (extra semicolons, comments, missing final semicolon); NEXUS 1-3 TREES blocks, 0-2 TAXA blocks "
                            "(TITLE/LINK), TRANSLATE, rooting/weight/metadata comments, unknown / CHARACTERS / SETS blocks, ENDBLOCK, statements after the last TREE, "
+                           "a fifth with carriage returns (CR LF / lone CR inside quoted tokens, inside comments, as line terminators; temp file written untranslated), "
                            "truncated documents; every route run on the implementation (data=, file=, path=), Tree.get and TreeList.get for sampled (collection_offset, tree_offset) "
                            "incl. None, negative and out of range; thorough adds exhaustive small scopes (every Newick document of <= 3 statements over 3 statement forms x 3 separators x 2 endings; "
                            "every NEXUS document over TAXA block absent/plain/titled+LINK x two TREES blocks with 0-2 trees, TRANSLATE or not, rooting comment or not); "
